@@ -44,8 +44,9 @@ Section C08.
 
   Theorem C08_str_text_roundtrip : forall s hive,
     parse_with_meta KStr (show hive (VStr s)) = Ok (VStr s) /\
-    parse_with_meta KCat (show hive (VCat (VStr s))) = Ok (VStr s).
-  Proof. intros s hive. split; reflexivity. Qed.
+    parse_with_meta (KCat None) (show hive (VCat (VStr s))) = Ok (VStr s) /\
+    parse_with_meta (KCat (Some KStr)) (show hive (VCat (VStr s))) = Ok (VStr s).
+  Proof. intros s hive. repeat split; reflexivity. Qed.
 
   (* floats / timestamps: reduced to the external conversions (trusted base) *)
   Theorem C08_float_time_roundtrip_conditional : forall hive f t ns single,
@@ -63,10 +64,24 @@ Section C08.
   Theorem C08_guess_int : forall z, parse_guess (show_Z z) = VInt z.
   Proof. exact (guess_int F T D parse_float parse_time_pd parse_delta). Qed.
 
-  (* known defect (finding C08-categorical-numeric-labels): the label dtype is not recorded, so the
-     labels of a numeric categorical come back as text *)
-  Theorem C08_categorical_numeric_refuted : exists v hive,
-    parse_with_meta KCat (show hive (VCat v)) <> Ok v.
+  (* repaired defect (was finding C08-categorical-numeric-labels): the writer now records the type of the labels of a
+     categorical partition column (key 'labels' of its metadata), and the reader converts the directory text with it.
+     A label comes back whenever a plain value of the recorded type does - in particular every integer label: *)
+  Theorem C08_categorical_labels_roundtrip : forall k v hive,
+    parse_base F T D parse_float parse_time_np parse_time_fmt k (show hive v) = Ok v ->
+    parse_with_meta (KCat (Some k)) (show hive (VCat v)) = Ok v.
+  Proof. intros k v hive H. exact H. Qed.
+
+  Theorem C08_categorical_int_labels_roundtrip : forall sg bits z hive, in_range sg bits z = true ->
+    parse_with_meta (KCat (Some (KInt sg bits))) (show hive (VCat (VInt z))) = Ok (VInt z).
+  Proof.
+    intros sg bits z hive H.
+    exact (roundtrip_int F T D show_float parse_float show_time_iso show_time_str parse_time_np parse_time_fmt sg bits z hive H).
+  Qed.
+
+  (* files of older writers carry no label type: their numeric labels still come back as text *)
+  Theorem C08_categorical_numeric_unrecorded_refuted : exists v hive,
+    parse_with_meta (KCat None) (show hive (VCat v)) <> Ok v.
   Proof. exists (VInt 1), true. cbn. discriminate. Qed.
 
   (* ---- group-by split: no row with non-null keys lost or duplicated, for every frame *)
@@ -164,7 +179,9 @@ Print Assumptions C08_bool_text_roundtrip.
 Print Assumptions C08_str_text_roundtrip.
 Print Assumptions C08_float_time_roundtrip_conditional.
 Print Assumptions C08_guess_int.
-Print Assumptions C08_categorical_numeric_refuted.
+Print Assumptions C08_categorical_labels_roundtrip.
+Print Assumptions C08_categorical_int_labels_roundtrip.
+Print Assumptions C08_categorical_numeric_unrecorded_refuted.
 Print Assumptions C08_groupby_partition.
 Print Assumptions C08_index_lookup.
 
